@@ -1280,6 +1280,14 @@ class VM:
                 return self._make_string_method(obj, key_str)
             return UNDEFINED
 
+        if isinstance(obj, bool):
+            # Boolean methods (a boolean is not a number)
+            if key_str == "toString":
+                return lambda *args: "true" if obj else "false"
+            if key_str == "valueOf":
+                return lambda *args: obj
+            return UNDEFINED
+
         if isinstance(obj, (int, float)):
             # Number methods
             if key_str in (
